@@ -30,9 +30,6 @@ impl<A: ToSV, B: ToSV, C: ToSV, D: ToSV, E: ToSV, F: ToSV> IntoValM<Vec<Val>> fo
     fn into_val(&self, e: &Env) -> (r: Vec<Val>) { unimplemented!() }
 }
 
-pub open spec fn w_auth_args(w: World, a: Address, args: Seq<SV>) -> World {
-    World { auth_args: w.auth_args.insert((a, args)), ..w }
-}
 pub open spec fn w_xcall(w: World, callee: Address, func: int, args: Seq<SV>, ret: SV, ext2: int) -> World {
     World { calls: w.calls.push(Call { callee: callee, func: func, args: args, ret: ret, ok: true }), ext: ext2, ..w }
 }
